@@ -4,6 +4,7 @@ import (
 	"context"
 	"crypto/x509"
 	"fmt"
+	"github.com/google/gce-tcb-verifier/extract/extractsev"
 	"runtime"
 	"strings"
 	"time"
@@ -346,6 +347,9 @@ func (s *sched) absorbWaiter() bool {
 
 const stuckAfter = 60 * time.Second
 
+// c09OtherFamily is a firmware family id other than GCE's.
+const c09OtherFamily = "11111111-2222-3333-4444-555555555555"
+
 type c09Task struct {
 	measClass string
 	meas      []byte
@@ -357,8 +361,11 @@ type c09Task struct {
 	// expired: this caller's clock (its own copy of the options) is past the signing certificate's
 	// validity; it shares the root pool object with the other callers
 	expired bool
-	want    bool
-	got     error
+	// otherFamily: this caller validates through a validator of another firmware family built
+	// from the same options value
+	otherFamily bool
+	want        bool
+	got         error
 }
 
 func runC09(r *core.Run) {
@@ -375,7 +382,10 @@ func runC09(r *core.Run) {
 	// an un-endorsed measurement still needs something in the bucket for the getter path
 	for _, m := range otherIs.Golden.SevSnp.Measurements {
 		net.Objects[SnpURL(m)] = is.Bytes
+		net.Objects[verify.GCETcbURL(extractsev.GCETcbObjectName(c09OtherFamily, m))] = is.Bytes
 	}
+	// (nothing is published under the other family for the endorsed image: that family's bucket
+	// does not know it, so which family a validator asks for decides its verdict)
 	s := &sched{r: r, maxSteps: 400}
 	pct := false
 	switch r.Intn(6, "strategy") {
@@ -456,6 +466,10 @@ func runC09(r *core.Run) {
 				t.blob, t.blobClass = Reassemble(is.Golden, nil, AttackerKey(a, 0), 0), "bad-signature"
 			}
 		}
+		if shape == 0 && t.source == 1 && r.Chance(35, "other-family?") {
+			t.otherFamily = true
+			t.measClass += "+other-family"
+		}
 		if shape != 2 && t.source == 2 && r.Chance(25, "expired-clock?") {
 			t.expired = true
 			t.measClass += "+expired-clock"
@@ -504,13 +518,25 @@ func runC09(r *core.Run) {
 	for _, t := range tasks {
 		o := newOpts()
 		so := newSevOpts()
-		err := call(t, verify.SNPValidateFunc(o), o, so)
+		f := verify.SNPValidateFunc(o)
+		if t.otherFamily {
+			f = verify.SNPFamilyValidateFunc(c09OtherFamily, o)
+		}
+		err := call(t, f, o, so)
 		t.want = err == nil
 	}
 	// ---- shared values ----
 	sharedOpts := newOpts()
 	sharedSev := newSevOpts()
-	sharedF := verify.SNPValidateFunc(sharedOpts)
+	// validators of two firmware families built from ONE options value, in a drawn order
+	var sharedF, sharedOther func(*spb.Attestation, []byte) error
+	if r.Bool("other-family-validator-first") {
+		sharedOther = verify.SNPFamilyValidateFunc(c09OtherFamily, sharedOpts)
+		sharedF = verify.SNPValidateFunc(sharedOpts)
+	} else {
+		sharedF = verify.SNPValidateFunc(sharedOpts)
+		sharedOther = verify.SNPFamilyValidateFunc(c09OtherFamily, sharedOpts)
+	}
 	// A poisoned delivery first (sometimes): an endorsement whose golden measurement parses up to a
 	// measurements entry carrying the UNENDORSED measurement (under a count the genuine document
 	// does not list) and is then cut: rejected, and nothing of it may survive into later calls.
@@ -557,6 +583,9 @@ func runC09(r *core.Run) {
 			f := sharedF
 			if shape == 1 {
 				f = verify.SNPValidateFunc(sharedOpts)
+			}
+			if t.otherFamily {
+				f = sharedOther
 			}
 			t.got = call(t, f, sharedOpts, sharedSev)
 		})
@@ -608,6 +637,39 @@ func runC09(r *core.Run) {
 		}
 		if got != t.want {
 			r.Fail("result-differs-from-isolation", fmt.Sprintf("shared-%d", shape), "%s: task %c got accept=%v, the same call in isolation gives accept=%v (error: %v)", where, 'A'+i, got, t.want, t.got)
+		}
+	}
+	// later calls run alone; one that never comes back (a lock a finished call left taken) is found
+	// blocked by its goroutine state, not by waiting
+	hung := false
+	origCall := call
+	call = func(t *c09Task, f func(*spb.Attestation, []byte) error, o *verify.Options, so *gcetcbendorsement.SevValidateOptions) error {
+		if hung {
+			return fmt.Errorf("not called: an earlier call through the shared value never returned")
+		}
+		done := make(chan error, 1)
+		st := &stask{}
+		ready := make(chan struct{})
+		go func() {
+			st.gid = goid()
+			close(ready)
+			done <- origCall(t, f, o, so)
+		}()
+		<-ready
+		for waited := time.Duration(0); ; waited += 5 * time.Millisecond {
+			select {
+			case err := <-done:
+				return err
+			case <-time.After(5 * time.Millisecond):
+				if blockedForReal(st) {
+					hung = true
+					r.Fail("result-differs-from-isolation", fmt.Sprintf("later-call-never-returns/shared-%d", shape), "after the concurrent calls, a call on its own through the shared value blocks for ever (it waits for a lock nobody holds any more); the same call on a fresh value returns")
+				}
+				if waited > stuckAfter {
+					r.HarnessErr = "C09: a later isolated call did not return within " + stuckAfter.String()
+					panic("c09: later call stuck")
+				}
+			}
 		}
 	}
 	// ---- a later isolated call through the shared value must behave like a fresh one ----
